@@ -31,7 +31,7 @@ const ACCEPT: &[&str] = &["C19.", "panic"];
 pub enum PlanP {
     A { plan: PlanA },
     /// search nonces until the first query-point candidate is a 2n-th root of unity
-    Q { len: u32, key: Hx, nonce_seed: u64, rand: Hx, max_trials: u64 },
+    Q { len: u32, key: Hx, nonce_seed: u64, rand: Hx, max_trials: u64, #[serde(default)] exact_order: bool },
 }
 
 fn modpow(mut b: u64, mut e: u64, p: u64) -> u64 {
@@ -62,7 +62,9 @@ fn gen_plan(seed: u64, tier: Tier) -> PlanP {
     let rng = &mut rng;
     if rng.chance(1, if tier == Tier::Thorough { 2000 } else { 6000 }) {
         let k = 12 + rng.below(4) as u32;
-        return PlanP::Q { len: (1 << k) - 1, key: Hx(rng.bytes(32)), nonce_seed: rng.u64(), rand: Hx(rng.bytes(64)), max_trials: 8_000_000 };
+        // lengths 2^k - 1, 2^k and 2^k + 1: the domain size (2 * next_power_of_two(len + 1)) changes at 2^k
+        let len = ((1u32 << k) as i64 + *rng.pick(&[-1i64, -1, 0, 0, 1])) as u32;
+        return PlanP::Q { len, key: Hx(rng.bytes(32)), nonce_seed: rng.u64(), rand: Hx(rng.bytes(64)), max_trials: 8_000_000, exact_order: rng.chance(1, 2) };
     }
     let mode = rng.below(10);
     let small = mode >= 4;
@@ -122,7 +124,7 @@ fn gen_plan(seed: u64, tier: Tier) -> PlanP {
     }
 }
 
-fn exec_q(len: u32, key: &[u8], nonce_seed: u64, rand: &[u8], max_trials: u64, ctx: &mut Ctx) -> Result<(), String> {
+fn exec_q(len: u32, key: &[u8], nonce_seed: u64, rand: &[u8], max_trials: u64, exact_order: bool, ctx: &mut Ctx) -> Result<(), String> {
     let vdaf = Prio2::new(len as usize).map_err(|e| e.to_string())?;
     let n = (len as usize + 1).next_power_of_two();
     let order = 2 * n as u64;
@@ -148,7 +150,9 @@ fn exec_q(len: u32, key: &[u8], nonce_seed: u64, rand: &[u8], max_trials: u64, c
         let stream = SeedStreamAes128::new((&tag[..16]).try_into().unwrap(), (&tag[16..]).try_into().unwrap());
         let cands: Vec<FieldPrio2> = stream.into_field_vec(6);
         let ints: Vec<u32> = cands.iter().map(|c| u32::from(*c)).collect();
-        if modpow(ints[0] as u64, order, p) == 1 {
+        // `exact_order`: the first candidate is a root of unity of order exactly 2n (an
+        // interpolation node that no smaller domain contains)
+        if modpow(ints[0] as u64, order, p) == 1 && (!exact_order || modpow(ints[0] as u64, order / 2, p) != 1) {
             found = Some((nonce, ints));
             break;
         }
@@ -210,10 +214,10 @@ fn exec_q(len: u32, key: &[u8], nonce_seed: u64, rand: &[u8], max_trials: u64, c
 fn exec(plan: &PlanP, counters: &mut Counters) -> Result<RunOut, String> {
     match plan {
         PlanP::A { plan } => exec_plan_a("C19", ACCEPT, plan, counters),
-        PlanP::Q { len, key, nonce_seed, rand, max_trials } => {
+        PlanP::Q { len, key, nonce_seed, rand, max_trials, exact_order } => {
             let r = guard_run(|| {
                 let mut ctx = Ctx::new(counters, ACCEPT);
-                exec_q(*len, &key.0, *nonce_seed, &rand.0, *max_trials, &mut ctx).map(|_| ctx.finish())
+                exec_q(*len, &key.0, *nonce_seed, &rand.0, *max_trials, *exact_order, &mut ctx).map(|_| ctx.finish())
             });
             match r {
                 Ok(x) => x,
@@ -253,7 +257,11 @@ impl Check for CheckPrio2 {
         let mut out = Vec::new();
         let mut rng = Rng::new(0xC19);
         for k in [15u32, 14, 13, 12] {
-            out.push(serde_json::to_value(PlanP::Q { len: (1 << k) - 1, key: Hx(rng.bytes(32)), nonce_seed: rng.u64(), rand: Hx(rng.bytes(64)), max_trials: 8_000_000 }).unwrap());
+            out.push(serde_json::to_value(PlanP::Q { len: (1 << k) - 1, key: Hx(rng.bytes(32)), nonce_seed: rng.u64(), rand: Hx(rng.bytes(64)), max_trials: 8_000_000, exact_order: false }).unwrap());
+        }
+        // exact powers of two (and one above): the first candidate is a node of order exactly 2n
+        for len in [1u32 << 15, 1 << 14, (1 << 14) + 1, 1 << 13] {
+            out.push(serde_json::to_value(PlanP::Q { len, key: Hx(rng.bytes(32)), nonce_seed: rng.u64(), rand: Hx(rng.bytes(64)), max_trials: 8_000_000, exact_order: true }).unwrap());
         }
         // the largest supported input lengths (the field's capacity is 2n <= 2^20): one honest
         // report each, end to end
